@@ -289,8 +289,35 @@ def c_text_accessors(rep, prop, spec, exe, rng):
         return
     outside = {o[1] for o in gen.get("cir", {}).get("outside", [])}
     lines, cs, meta = [], common.Cases(), []
+    enumval = {}
+    for gf in gen.get("files", []):
+        for n_, v_ in (gf.get("field_enum") or {}).get("enumerators", []):
+            enumval[n_] = v_
     for f in spec["formats"]:
         H = f["headerLen"]
+        if prop == "C12":
+            leg = f.get("legacy")
+            if not leg:
+                continue
+            vb = leg["valBits"]
+            for i, fld in enumerate(f["fields"]):
+                if fld["enum"] not in enumval or fld["width"] > vb:
+                    continue
+                ev = enumval[fld["enum"]]
+                # legacy setter: bytes afterwards
+                if leg["setFn"] not in outside:
+                    bg = bytes(rng.getrandbits(8) for _ in range(H + 4))
+                    v = rng.getrandbits(max(1, min(fld["width"], vb)))
+                    lines.append((leg["setFn"], [65536 + 2, ev, v], None, bg, [], f["file"]))
+                    cs.add(["buf a " + hexs(bg), "set a 2 %s %d l %d" % (f["name"], i, v), "dump a"])
+                    meta.append((f["name"], leg["setFn"], fld["enum"]))
+                # legacy getter: the result location is the 8 octets behind the header copy
+                if leg["getFn"] not in outside:
+                    bg = bytes(rng.getrandbits(8) for _ in range(H + 2)) + bytes(8)
+                    lines.append((leg["getFn"], [65536 + 2, ev, 65536 + 2 + H], None, bg, [], f["file"]))
+                    cs.add(["buf a " + hexs(bg[:H + 2]), "get a 2 %s %d l" % (f["name"], i)])
+                    meta.append((f["name"], leg["getFn"], "get:%d:%d" % (H, vb)))
+            continue
         if prop == "C04":
             fn = f.get("initFn")
             if not fn or fn in outside:
@@ -319,7 +346,11 @@ def c_text_accessors(rep, prop, spec, exe, rng):
     nbad = 0
     for k, (fmt, fn, what) in enumerate(meta):
         cl = [x for x in got.get(k, []) if not x.startswith("r ")]
-        if prop == "C01":
+        if prop == "C12" and what.startswith("get:"):
+            H_, vb_ = (int(z) for z in what.split(":")[1:])
+            stored = bytes.fromhex(res[k][1])[2 + H_: 2 + H_ + vb_ // 8] if res[k][1] not in ("stuck", "") else b""
+            ok_ = cl[:1] == ["v %d" % int.from_bytes(stored, "little")] and res[k][0] == "0"
+        elif prop == "C01":
             ok_ = cl[:1] == ["v " + res[k][0]]
         else:
             ok_ = bool(cl) and cl[-1].split()[-1] == res[k][1]
@@ -330,7 +361,7 @@ def c_text_accessors(rep, prop, spec, exe, rng):
                            "ops": cs.cases[k], "observed_real_code": got.get(k), "c_text_under_CSem": list(res[k])})
     rep.cov["c_text_vs_real_accessors"] = {"functions": len(meta), "disagreements": nbad,
                                            "what": "every dedicated %s of every format: Gen/Cir.lean interpreted by CSem/Eval.lean vs the compiled function, random header"
-                                                   % {"C01": "getter", "C02": "setter", "C04": "current-API initialiser"}[prop]}
+                                                   % {"C01": "getter", "C02": "setter", "C04": "current-API initialiser", "C12": "legacy get/set wrapper x field"}[prop]}
 
 
 def cir_vs_real(rep, prop, exe, rc, n):
